@@ -1,4 +1,5 @@
 import AriesVerif.C10.Props
+import AriesVerif.C10.Rot
 #print axioms Conn.putKeep_known
 #print axioms Conn.C10_no_repoint
 #print axioms Conn.C10_F1_overwrite_repoints
@@ -8,3 +9,8 @@ import AriesVerif.C10.Props
 #print axioms Conn.C10_attribution_authenticated
 #print axioms Conn.C10_F2_unauthenticated_from
 #print axioms Conn.C10_mirror
+#print axioms Conn.Rot.C10_rotation_needs_prior_key
+#print axioms Conn.Rot.C10_rotation_foreign_kid
+#print axioms Conn.Rot.C10_rotation_only_that_connection
+#print axioms Conn.Rot.C10_rotation_sender_is_sub
+#print axioms Conn.Rot.C10_rotation_history
